@@ -155,6 +155,10 @@ def run(ctx, res):
             res.count('feat:' + k)
         if i == 3:
             res.sample({'source': repr(src[:160])})
+    # the words the picotool source itself mentions, as identifiers in every syntactic position (they are identifiers like any other)
+    for src, items in gen_lua.word_programs(rng, per_word=2 if ctx.thorough() else 1):
+        check_program(res, src, items, batch, 'word')
+        res.count('word-program')
     anchors = [b'if (a) if (b) c=1 d=2\ne=3\nf=4\n', b'if (a) b=1\nc=2\n', b'if (a) b=1 else c=2\nd=3', b'if (a) b=1', b'if (a) b=1 -- c\nd=1',
                b'function f()\nif (a) if (b) c=1\ne=3\nend\n', b'if (a) b=1 else if (c) d=1\ne=2\n', b'if (a) else x=1\ny=2', b'if (a) x=1 else\ny=2',
                b'if (a) return\nx=1', b'if (a)--[[\n]] b=1\nc=2', b'a=1;;;b=2', b'a=b=c\n', b'a |= 1\n', b'?x,y\n', b'x=()', b'(f or g)(x)\n',
